@@ -205,16 +205,12 @@ def get_all_fields(
         schema = schema._schema
 
     ret = []
-    prefix = schema._key + "." if schema._key else ""
+    # paths are the full reference paths, also when the enumeration starts at a nested schema
+    prefix = schema._ref_path + "." if schema._key else ""
     for key, field in schema._fields.items():
         ret.append((prefix + key, schema, field))
         if isinstance(field, Schema):
-            ret.extend(
-                [
-                    (prefix + subkey, schema, subfield)
-                    for subkey, schema, subfield in get_all_fields(field)
-                ]
-            )
+            ret.extend(get_all_fields(field))
     return ret
 
 
